@@ -6,8 +6,12 @@ pub mod c14;
 pub mod c15;
 pub mod c30;
 pub mod c31;
+pub mod c32;
+pub mod c33;
+pub mod c35;
 pub mod c40;
 pub mod c41;
+pub mod c42;
 
 pub type RunFn = fn(&mut Report);
 
@@ -18,8 +22,12 @@ pub const REGISTRY: &[(&str, RunFn)] = &[
     ("C15", c15::run),
     ("C30", c30::run),
     ("C31", c31::run),
+    ("C32", c32::run),
+    ("C33", c33::run),
+    ("C35", c35::run),
     ("C40", c40::run),
     ("C41", c41::run),
+    ("C42", c42::run),
 ];
 
 pub fn lookup(id: &str) -> Option<(&'static str, RunFn)> {
